@@ -12,7 +12,7 @@ from fractions import Fraction
 
 from . import mir
 from .mir import MirError, nleaves, norm_ty, pointee, is_ptr, is_unsized, field_off, array_parts, ty_split_adt, INT_BITS, FLOATS
-from .terms import (T, is_sym, node, sort_of, var, arith, neg, cmp, bnot, band, bor, ite, app, conj, disj, to_real, show)
+from .terms import (T, is_sym, node, sort_of, var, arith, neg, cmp, bnot, band, bor, ite, app, conj, disj, to_real, show, substitute)
 
 UNINIT = 'uninit'
 EPS = Fraction(1, 2 ** 52)
@@ -296,6 +296,8 @@ class Machine:
             for x in mir.split_top(m.group(1).rstrip('}').strip()):
                 out += s.const(x.split(':', 1)[1].strip())
             return out
+        if re.match(r'^[\w:]+::promoted\[\d+\]$', c) and c in s.fns:
+            return s.eval_promoted(c)
         m = re.match(r'^\{0x([0-9a-f]+) as (.*)\}$', c)
         if m:
             return [Ptr(('dangling', int(m.group(1), 16)), 0)]
@@ -315,7 +317,34 @@ class Machine:
             return out
         raise MirError('const? ' + c)
 
+    def eval_promoted(s, name):
+        """Run a promoted constant body (straight-line) in a frame of the current path."""
+        p = s.cur
+        key = ('promoted', name)
+        if key in p.mem:
+            return list(p.mem[key])
+        fn = s.fns[name]
+        fid = p.nfid
+        p.nfid += 1
+        saved = p.stack
+        p.stack = p.stack + [Frame(fn, fid, None, None)]
+        bb = 0
+        for _ in range(1000):
+            stmts, term = s.get_parsed(fn, bb)
+            for st in stmts:
+                s.stmt(p, st)
+            if term[0] == 'return':
+                break
+            if term[0] != 'goto':
+                raise MirError('promoted constant with control flow: ' + name)
+            bb = term[1]
+        ret = list(p.mem.get((fid, 0), []))
+        p.stack = saved
+        p.mem[key] = ret
+        return list(ret)
+
     def operand(s, p, o):
+        s.cur = p
         if o[0] == 'place':
             return s.read_place(p, o[1], o[2])[0]
         v = s.const(o[1])
@@ -711,7 +740,7 @@ class Machine:
                     p.pc.append(c)
             return []
         if base in ('vassert', 'vlemma'):
-            mid = a[0][0].s
+            mid = a[0][0].s.replace(' ', '_')
             c = a[1][0]
             if conc:
                 p.events.append(('ASSERT', mid, bool(c)))
@@ -722,7 +751,7 @@ class Machine:
                 p.pc.append(c)
             return []
         if base in ('vassert_eq', 'vlemma_eq'):
-            mid = a[0][0].s
+            mid = a[0][0].s.replace(' ', '_')
             if conc:
                 p.events.append(('ASSERTEQ', mid, list(a[1]), list(a[2])))
                 return []
@@ -737,18 +766,18 @@ class Machine:
                         p.pc.append(c)
             return []
         if base == 'vcover':
-            mid = a[0][0].s
+            mid = a[0][0].s.replace(' ', '_')
             if conc:
                 p.events.append(('COVER', mid))
                 return []
             s.covers.setdefault(mid, []).append(tuple(p.pc))
             return []
         if base == 'vout':
-            mid = a[0][0].s
+            mid = a[0][0].s.replace(' ', '_')
             p.events.append(('OUT', mid, list(a[1])))
             return []
         if base == 'vmust_not_reach':
-            mid = a[0][0].s
+            mid = a[0][0].s.replace(' ', '_')
             if conc:
                 p.events.append(('ASSERT', mid, False))
                 return []
@@ -808,8 +837,10 @@ class Machine:
             p.mem[(0, loc)] = list(vals)
         return p
 
-    def run(s, fname, init_leaves):
+    def run(s, fname, init_leaves, init_pc=None):
         p = s.start(fname, init_leaves)
+        if init_pc:
+            p.pc = list(init_pc)
         p.pid = 0
         s.npaths = 1
         work = [(p, 0, 0)]
@@ -829,7 +860,7 @@ class Machine:
             p.events.append(('PANIC',))
             return
         if not p.may_panic:
-            s.obligations.append({'kind': 'nopanic', 'id': 'no-panic(%s)' % why[:40], 'leaf': 0, 'pc': tuple(p.pc), 'path': p.pid, 'lemma': False})
+            s.obligations.append({'kind': 'nopanic', 'id': 'no-panic(%s)#0' % re.sub(r'[^\w:]', '_', why[:40]), 'leaf': 0, 'pc': tuple(p.pc), 'path': p.pid, 'lemma': False})
 
     def fork(s, p, conds, work):
         """conds: list of (condition term, continuation (bb, idx), fixup or None).  Pushes feasible ones."""
@@ -902,10 +933,16 @@ class Machine:
             bb = nxt
 
     def replace_everywhere(s, p, term, k):
+        isvar = node(term)[0] == 'var'
+        env = {node(term)[1]: k} if isvar else None
+        memo = {}
         for o, leaves in p.mem.items():
             for i, v in enumerate(leaves):
-                if v == term and is_sym(v):
-                    leaves[i] = k
+                if is_sym(v):
+                    if v == term:
+                        leaves[i] = k
+                    elif isvar and sort_of(v) in ('Int', 'Bool'):
+                        leaves[i] = substitute(v, env, memo)
 
     def stmt(s, p, st):
         k = st[0]
